@@ -50,3 +50,6 @@ package xstar
 //@   ensures option == protocol.OptionRaw ==> isnil(result1) && result0 == iface(true)
 //@
 // ---- end generated option contracts ----
+//@
+//@ func (*pipe).receiver
+//@   before call:close#1 assert m == nil || sel("select#2") == 1 || sel("select#2") == 2
